@@ -14,8 +14,13 @@ REPO = os.environ.get("VERIF_REPO", "/repo")
 HARNESS = os.path.join(ROOT, "harness")
 BUILD = os.path.join(ROOT, "build")
 CACHE = os.path.join(BUILD, "cache")
-EVIDENCE = os.path.join(ROOT, "evidence")
-REPLAYS = os.path.join(ROOT, "replays")
+# VERIF_OUT redirects everything a run writes (evidence, replays, scratch) so that
+# sensitivity runs against scratch copies of the repository (VERIF_REPO) can run
+# concurrently without touching /verif/evidence.
+_OUT = os.environ.get("VERIF_OUT")
+EVIDENCE = os.path.join(_OUT or ROOT, "evidence")
+REPLAYS = os.path.join(_OUT or ROOT, "replays")
+WORK = os.path.join(_OUT or BUILD, "work")
 REGRESS = os.path.join(ROOT, "regress")
 KNOWN = os.path.join(ROOT, "KNOWN_FINDINGS.txt")
 NCPU = int(os.environ.get("VERIF_JOBS", "16"))
@@ -77,15 +82,18 @@ def cache_dir():
     return d
 
 
-def prune_cache(keep=3):
-    """Keep the current tree key and the most recent few others (disk is limited)."""
+def prune_cache(keep=6, min_age_s=6 * 3600):
+    """Keep the current tree key, the most recent few others and anything touched recently (disk is limited;
+    concurrent runs against scratch trees must not lose their objects)."""
     if not os.path.isdir(CACHE):
         return
     cur = tree_key()
+    now = time.time()
     ds = [d for d in os.listdir(CACHE) if d != cur]
     ds.sort(key=lambda d: os.path.getmtime(os.path.join(CACHE, d)), reverse=True)
     for d in ds[keep:]:
-        shutil.rmtree(os.path.join(CACHE, d), ignore_errors=True)
+        if now - os.path.getmtime(os.path.join(CACHE, d)) > min_age_s:
+            shutil.rmtree(os.path.join(CACHE, d), ignore_errors=True)
 
 
 def _harness_digest():
